@@ -24,6 +24,30 @@ impl Monitor for C16 {
             self.rep.count("seal did not complete (left to C09)");
             if let Some(p) = &ev.panic {
                 self.rep.note(&format!("seal panicked (C09's business): {} @ {} [{}] case_seed={}", p.message, p.location, p.origin, self.case_seed));
+                // ... unless the state it died on already had a built-in pool without reserves: then the block could not be
+                // sealed BECAUSE the invariant of this property was lost, and there is no sealed state to look at
+                if let Some(last) = ev.phases.last() {
+                    let pool_at = |key: PoolKey| -> Option<PoolState> { last.pools.get(&pool_slot_key(&key.to_bytes())).and_then(|b| stdcode::deserialize::<PoolState>(b).ok()) };
+                    let mut builtins = vec![("MEL/SYM", PoolKey::new(Denom::Mel, Denom::Sym)), ("MEL/ERG", PoolKey::new(Denom::Mel, Denom::Erg))];
+                    if tip_active(ev.net, ev.height, TIP_902) {
+                        builtins.push(("ERG/SYM", PoolKey::new(Denom::Erg, Denom::Sym)));
+                    }
+                    if ev.phases.len() >= 2 {
+                        for (name, key) in builtins {
+                            let bad = match pool_at(key) {
+                                None => true,
+                                Some(ps) => ps.lefts == 0 || ps.rights == 0,
+                            };
+                            if bad {
+                                self.rep.violate(
+                                    &format!("C16|builtin-pool-without-reserves-stops-sealing|seal|{}", name),
+                                    format!("sealing height {} panicked ({}) on a state in which the built-in pool {} is missing or has an empty side", ev.height, p.message, name),
+                                    json!({"case_seed": self.case_seed, "origin": w.origin, "height": ev.height, "phases_completed": ev.phases.len(), "panic": p.message, "block_txs_hex": ev.block_txs.iter().map(tx_hex).collect::<Vec<_>>()}),
+                                );
+                            }
+                        }
+                    }
+                }
             }
             return;
         }
